@@ -36,6 +36,9 @@ class from_config:
         #     (a `read` that returned is recorded as a call; a `read` that raised is not)
         "C11.saved": "n_calls('save') == ite(save_local and n_calls('read') == 0, 1, 0)",
         "C11.saved-what": "(call_receiver('save', 0) == result) if n_calls('save') == 1 else True",
+        # ... under the very name the request is looked up by (the file a later identical request will find), not a name derived from anything else
+        "C11.saved-where": "(call_arg('save', 0, 0) == Path(local_base_path) / Path(f'{cfg.to_fname()}.zanj')) if n_calls('save') == 1 else True",
+        "C11.read-where": "(call_arg('read', 0, 0) == Path(local_base_path) / Path(f'{cfg.to_fname()}.zanj')) if n_calls('read') == 1 else True",
         # a dataset read from the file is served as it is (after the check above)
         "C11.served-from-file": "(call_result('read', 0) == result) if n_calls('read') == 1 else True",
     }
